@@ -500,7 +500,10 @@ def unfold_ifexp_assign(fn, ref_sigs: list) -> int:
             ast.fix_missing_locations(a)
             return a
 
-        new = ast.If(test=copy.deepcopy(ifx[0].test), body=[variant(ifx[0].body)], orelse=[variant(ifx[0].orelse)])
+        else_branch = [variant(ifx[0].orelse)]
+        if ast.unparse(else_branch[0].targets[0]) == ast.unparse(else_branch[0].value):
+            else_branch = []  # `x = A if c else x`: the else branch is a self-assignment
+        new = ast.If(test=copy.deepcopy(ifx[0].test), body=[variant(ifx[0].body)], orelse=else_branch)
         ast.copy_location(new, st)
         ast.fix_missing_locations(new)
         before = alignment_score(fn, ref_sigs)
